@@ -267,6 +267,8 @@ class BlockSeries:
                     raise IndexError("Cannot evaluate infinite series")
                 if isinstance(order.start, int) and order.start < 0:
                     raise IndexError("Cannot evaluate negative order")
+                if order.stop < 0:
+                    raise IndexError("Cannot evaluate negative order")
             elif np.min(order, initial=0) < 0:
                 raise IndexError("Cannot evaluate negative order")
 
